@@ -62,6 +62,7 @@ func (m *frameSetMap) Incref(id FrameSetId) {
 		return
 	}
 
+	verifYield(1)
 	atomic.AddUint32(&ref.refs, 1)
 	// fmt.Printf("Incref %v to %d\n", ref, refs)
 }
@@ -75,12 +76,14 @@ func (m *frameSetMap) Decref(id FrameSetId) {
 		return
 	}
 
+	verifYield(2)
 	refs := atomic.AddUint32(&ref.refs, ^uint32(0))
 	// fmt.Printf("Decref %v to %d\n", ref, refs)
 	if refs != 0 {
 		return
 	}
 
+	verifYield(3)
 	m.lock.Lock()
 	if atomic.LoadUint32(&ref.refs) == 0 {
 		// fmt.Printf("Deleting %v\n", ref)
@@ -132,6 +135,7 @@ func (m *fileSeqMap) Incref(id FileSeqId) {
 		return
 	}
 
+	verifYield(1)
 	atomic.AddUint32(&ref.refs, 1)
 	// fmt.Printf("Incref %v to %d\n", ref, refs)
 }
@@ -145,12 +149,14 @@ func (m *fileSeqMap) Decref(id FileSeqId) {
 		return
 	}
 
+	verifYield(2)
 	refs := atomic.AddUint32(&ref.refs, ^uint32(0))
 	// fmt.Printf("Decref %v to %d\n", ref, refs)
 	if refs != 0 {
 		return
 	}
 
+	verifYield(3)
 	m.lock.Lock()
 	if atomic.LoadUint32(&ref.refs) == 0 {
 		// fmt.Printf("Deleting %v\n", ref)
